@@ -466,6 +466,8 @@ def small_configs(quick):
             for drive in sorted({"1" * nsub, "1" + "0" * (nsub - 1), "0" * (nsub - 1) + "1"}):
                 out.append((mk_case(cap, 1, drive, prog(nmsg)), b_small))
     out.append((mk_case(2, 0, "1", ["1@p10", "0@p20"]), b_small))
+    # partial reordering: the buffer holds {0, 2} while 1 is still missing (a gap above the lowest message)
+    out.append((mk_case(3, 0, "1", ["0@p10", "2@p20", "1@p30"]), b_small))
     out.append((mk_case(None, 1, "1", prog(2)), b_small))
     out.append((mk_case(1, 0, "1", ["f0:10", "p20"], [[0]]), b_small))
     out.append((mk_case(1, 1, "1", ["f0:10"], [[0]]), b_small))
